@@ -975,15 +975,32 @@ func main() {
 		"a resource.Collection of 0-4 items (ids that sort in byte order: a, B, a1, x, y, zz) read with a list of read options that combines an include callback (one of a closed family of 8 shared with the Lean model: always, never, non-empty, id-or-non-empty, has default_int32, has default_foreign_message.c, id is not y, has default_string) with read masks (WithReadMask / WithReadPaths, nil, empty, nested, parent+child), UpdatesOnly and unrelated options in any order, on a plain collection or one with WithNoDuplicates: Collection.List, everything Collection.Pull delivers (seeds, then 0-5 Add/Update/Delete writes: UPDATE, ADD on entering and REMOVE on leaving the include set) and everything Collection.PullID delivers for an id (stored or not), and everything Value.Pull delivers on a resource.Value (with the same equivalence) that is given the same messages, each compared with the Lean model (ScVerif/C06/Coll.lean: listWith / pullStream / pullID; ValuePull.lean: valuePull) fed with what a plain subscriber of the same collection saw (the store in a shuffled order, the raw events) and with what the value published; an injected clock makes change times exact; a fixed family of small cases (callback on a field the mask leaves out, PullID on an item that does not sort last) runs first; non-trivial = an include callback and a non-nil mask are both in effect; distinct by the whole case")
 	kmon := res.Monitor("collection-read-semantics",
 		"for every case: List(options) = the stored items the LAST include callback accepts WHEN GIVEN THE STORED MESSAGE, in id order, each projected onto the mask of the last read-mask option; the seed values of Pull = the same items as ADD changes with their change times, the seed flag, the last-seed flag on the final one only (none under UpdatesOnly); every later change of the masked Pull = the projection (old and new value; same id, kind, time, flags) of the change the same subscription without its read-mask options delivers (with WithNoDuplicates: of one of them, in order); PullID: exactly one seed value first iff the id is stored and accepted (and not UpdatesOnly) = projection of the stored item, its change time, flagged seed and last seed, and every value = projection of what the unmasked PullID delivers; Value.Pull: the projection of what the same subscription without its read-mask options delivers (with WithNoDuplicates: each value the projection of a value the resource held, in order); no message the collection stored and no delivered change object is altered; no panic, no stall")
-	runCollCases(seededCollCases(), ktie, kmon, drv)
+	stie := res.Tie("publication-schedules", "K4",
+		"the same collection cases as whole SCHEDULES: the Lean model (ScVerif/C06/Sched.lean: step / run / session / sessionID / listAfter) is told only what the harness did — items added, then 0-3 writes HELD between storing their value and bus.Send (yield point coll.update.beforeSend; a Delete among them completes), then the reads / subscriptions open, then the held writers are released in storage order or another one (publications overtaking each other), then 0-5 complete writes — and computes the store the subscriptions find, every change published afterwards (kind, old and new value, the ticking clock's change times) and from them List, everything the Pull with the option list, the PullID and a plain Pull are delivered; compared with the real collection run under exactly that schedule; non-trivial = at least one write was pending when the subscriptions opened; distinct by the whole case")
+	runCollCases(seededCollCases(), ktie, stie, kmon, drv)
 	var kcs []kcase
 	for i, n := 0, f.N(700, 15000); i < n; i++ {
 		kcs = append(kcs, genCollCase(g))
 		if len(kcs) == 500 || i == n-1 {
-			runCollCases(kcs, ktie, kmon, drv)
+			runCollCases(kcs, ktie, stie, kmon, drv)
 			kcs = kcs[:0]
 		}
 	}
+	// the lossy stage of subscriptions without backpressure
+	lmtie := res.Tie("lossy-merge", "K2",
+		"mergeChanges (pkg/resource/backpressure.go, through VerifMergeChanges) on every pair of change kinds (5 x 5) x last-seed flags (4) x value shapes (all four values present / the values a change of that kind normally has): merged change or `drop`, against the Lean mergeChanges (ScVerif/C06/Lossy.lean); exhaustive")
+	lmtie.Exhaustive = true
+	lstie := res.Tie("lossy-stage", "K4",
+		"the goroutine of mergeCollectionExcess (through VerifMergeCollectionExcess) driven with an EXPLICIT schedule of its two select cases — the harness owns both channels and offers one operation at a time: `t` publish the next change into it, `h` receive what it hands over (where the model says the queue is empty: nothing may arrive within 1 ms) — on 1-7 published changes over 1-3 ids (ADD / UPDATE / REMOVE chains, one in ten an arbitrary kind; seed flags), every hand-over compared with the Lean model (Lossy.lean: lossyT, proved equal to `lossy`); a fixed family (two UPDATEs of one id, ADD+UPDATE, ADD+REMOVE cancelling, REMOVE+ADD = REPLACE, under six schedules) runs first; non-trivial = fewer changes handed over than published (something was merged or cancelled); distinct by (schedule, changes)")
+	lmon := res.Monitor("lossy-stage-values",
+		"for every schedule of the lossy stage: every change it hands over carries, as old and as new value, only values (or nil) that some published change of the same id carried; it never hands over more changes than were published; it never stalls")
+	runLossyCases(mergeTable(), lmtie, lstie, lmon, drv)
+	runLossyCases(seededStageCases(), lmtie, lstie, lmon, drv)
+	var lcs []lcase
+	for i, n := 0, f.N(400, 8000); i < n; i++ {
+		lcs = append(lcs, genStageCase(g))
+	}
+	runLossyCases(lcs, lmtie, lstie, lmon, drv)
 	if found, undriven := undrivenComposers(); len(undriven) > 0 {
 		res.Notes = append(res.Notes, fmt.Sprintf("composing call sites in pkg/trait (functions calling FilterClone/ResponseFilter/NewResponseFilter): %d found, not driven by a composed-readers row: %s", len(found), strings.Join(undriven, ", ")))
 	} else {
@@ -1009,6 +1026,7 @@ func replay(f lib.Flags) int {
 		Reader  string    `json:"reader"`
 		Shared  bool      `json:"shared_container"`
 		Coll    bool      `json:"collection_read"`
+		Lossy   bool      `json:"lossy_stage"`
 	}
 	_ = json.Unmarshal(b, &probe)
 	if probe.Reader != "" {
@@ -1016,6 +1034,9 @@ func replay(f lib.Flags) int {
 	}
 	if probe.Coll {
 		return replayCollection(b)
+	}
+	if probe.Lossy {
+		return replayLossy(b, f.Driver)
 	}
 	if probe.Shared {
 		var c hcase
